@@ -253,25 +253,11 @@ Proof.
   destruct (Hall channels s fuel h t Hwf H1 H2 Hp) as [Hc _]. rewrite Hpl in Hc. discriminate.
 Qed.
 
-Lemma staircase_refuted_repetition : ~ C17_staircase_unguarded true false.
-Proof.
-  eapply (refute_with true false 1%nat wit_rep 200%positive).
-  - vm_compute; reflexivity.
-  - intros _; vm_compute; reflexivity.
-  - intros H; discriminate H.
-  - vm_compute; reflexivity.
-  - vm_compute; reflexivity.
-Qed.
-
-Lemma staircase_refuted_repetition_inner : ~ C17_staircase_unguarded true false.
-Proof.
-  eapply (refute_with true false 1%nat wit_rep_inner 400%positive).
-  - vm_compute; reflexivity.
-  - intros _; vm_compute; reflexivity.
-  - intros H; discriminate H.
-  - vm_compute; reflexivity.
-  - vm_compute; reflexivity.
-Qed.
+(* the witnesses of the former finding `repetition-entry-state` play their staircase since the repair *)
+Lemma repaired_repetition_witnesses :
+  (exists h t, pipeline 200 1 wit_rep = Ok (h, t) /\ plays h (fst (staircase wit_rep)) = true) /\
+  (exists h t, pipeline 400 1 wit_rep_inner = Ok (h, t) /\ plays h (fst (staircase wit_rep_inner)) = true).
+Proof. split; eexists; eexists; (split; [vm_compute; reflexivity|vm_compute; reflexivity]). Qed.
 
 Lemma staircase_refuted_zero_factor : ~ C17_staircase_unguarded false true.
 Proof.
